@@ -3,6 +3,10 @@
 //! replay crate (cfg(not(kani)): inputs are the bytes of a counterexample).
 #![allow(dead_code)]
 
+// keep the executor crate in the harness crate's own dependency graph: the block_on stub must resolve even
+// when the crate under test stops calling it
+use futures_executor as _;
+
 pub const INP_LEN: usize = 128;
 
 /// All symbolic inputs of a harness come out of one byte array, drawn by a single `kani::any()`
@@ -146,6 +150,14 @@ pub mod stubs {
     /// irrelevant there, only the slicing/advancing around the call is under test.
     pub fn lossy_empty(_v: &[u8]) -> Cow<'_, str> {
         Cow::Borrowed("")
+    }
+    /// Growth of the pre-sized `BytesMut` is outside the model: reaching it is reported (assertion), then the
+    /// path is dropped. Without this, symex explores `reserve_inner` whenever a length it cannot fold (any
+    /// string length read out of an `IppValue`) is appended.
+    pub fn reserve_inner_stub(_b: &mut bytes::BytesMut, _additional: usize, _allocate: bool) -> bool {
+        kani::assert(false, "BytesMut grew beyond the pre-sized capacity (outside the model)");
+        kani::assume(false);
+        true
     }
     pub fn bm_new() -> bytes::BytesMut {
         bytes::BytesMut::with_capacity(256)
